@@ -197,27 +197,22 @@ Example C02_static_redirect_nonvacuous :
   = [Redirect 307 (bs "/"); Redirect 307 (bs "/a.txt"); Redirect 307 (bs "/dir/")].
 Proof. vm_compute. reflexivity. Qed.
 
-(* browse, full statement: FALSE of the faithful model — its add-a-slash redirect has no '//'
-   trimming loop: //evil.example/.. is redirected to the scheme-relative //evil.example/../ *)
-Theorem C02_browse_redirect_same_origin_refuted :
-  exists fs hide pages confs req code loc,
-  rooted req /\ browse fs hide pages confs 0 req [] [] = Redirect code loc /\ same_origin loc = false.
-Proof. exact browse_redirect_same_origin_refuted. Qed.
-Print Assumptions C02_browse_redirect_same_origin_refuted.
-
-(* ... the strongest true form: unless the request path itself starts with "//", every redirect
-   browse issues (its own or the static file server's behind it) stays on the origin. *)
-Theorem C02_browse_redirect_same_origin_partial :
+(* browse: every redirect it issues (its own add-a-slash redirect, which trims a leading "//" like
+   the static file server's, or the static file server's behind it) stays on the origin, however
+   the request path is spelled. *)
+Theorem C02_browse_redirect_same_origin :
   forall fs hide pages confs m req ae archive code loc,
-  rooted req -> has_prefix req [SLASH; SLASH] = false ->
+  rooted req ->
   browse fs hide pages confs m req ae archive = Redirect code loc ->
   one_slash loc = true /\ same_origin loc = true.
 Proof. exact browse_redirect. Qed.
-Print Assumptions C02_browse_redirect_same_origin_partial.
+Print Assumptions C02_browse_redirect_same_origin.
 
-Example C02_browse_redirect_partial_nonvacuous :
-  browse fixture_fs gen_c02_hide gen_default_index_pages [{| b_scope := [SLASH]; b_types := [] |}]
-         0 (bs "/x/..//dir/sub") [] [] = Redirect 301 (bs "/dir/sub/").
+Example C02_browse_redirect_nonvacuous :
+  map (fun p => browse fixture_fs gen_c02_hide gen_default_index_pages [{| b_scope := [SLASH]; b_types := [] |}]
+                       0 (bs p) [] [])
+      ["/x/..//dir/sub"; "//evil.example/.."; "///evil.example/../dir"; "/\evil.example/../dir"]%string
+  = [Redirect 301 (bs "/dir/sub/"); Redirect 301 (bs "/"); Redirect 301 (bs "/dir/"); Redirect 301 (bs "/dir/")].
 Proof. vm_compute. reflexivity. Qed.
 
 (* ---- the whole site ---------------------------------------------------------------------- *)
@@ -239,8 +234,7 @@ Theorem C02_site_sound :
       forall k, In k ms -> In k (s_fs s) /\ is_desc (jail (q_path r)) (n_path k) = true /\
                            has_prefix (n_path k) (jail (q_path r)) = true
   | Redirect code loc =>
-      rooted (q_path r) -> has_prefix (q_path r) [SLASH; SLASH] = false ->
-      one_slash loc = true /\ same_origin loc = true
+      rooted (q_path r) -> one_slash loc = true /\ same_origin loc = true
   | Status _ => True
   end.
 Proof. exact site_sound. Qed.
